@@ -6,7 +6,6 @@ export CARGO_NET_OFFLINE=true
 mkdir -p .scratch
 ( cd harness && cargo build --release --offline --features hooks )
 ( cd harness && cargo build --release --offline --features smallbuf --target-dir target-smallbuf )
-if [ -d fuzz ] && [ -f fuzz/Cargo.toml ]; then
-  ( cd fuzz && cargo +nightly fuzz build -O 2>&1 | tail -3 ) || echo "fuzz targets not built (thorough tiers will skip campaigns)"
-fi
+# libFuzzer targets (used by the thorough tiers only); a failure here is not fatal
+( cd harness && cargo +nightly fuzz build -O 2>&1 | tail -2 ) || echo "fuzz targets not built (thorough tiers will skip campaigns)"
 echo setup done
